@@ -34,6 +34,10 @@ def run(ctx):
         scs += logix_rw.cross_section(rnd, 60 if thorough else 16, prefix="ex")
     except ImportError:
         pass
+    # a target may grant any 32-bit connection id, zero included
+    for k, sc in enumerate(scs):
+        if k % 6 == 2 and "cids" in sc["target"] and [0, 0, 0, 0] not in sc["target"]["cids"]:
+            sc["target"]["cids"] = [[0, 0, 0, 0]] + sc["target"]["cids"]
     # the network takes every frame in several pieces (partial sends): what arrives is still one well-formed frame per message
     for k, sc in enumerate(scs):
         if k % 4 == 1:
